@@ -124,6 +124,8 @@ def run(ctx):
         if isinstance(c, select.SCase) and c.oracle_fn is None and c.entry in select.SEL:
             n = c.extra["length"]
             xs_ = None
+    for c in wcases:
+        c.exact = True   # the width-16 model is the specification of the wide build: a difference is a failing input
     wimpl, _ = ctx.run_suite("wide-lengths-u16", wcases, HEADER16, features=("period_type_u16",), per_shard=3,
                              theorem="Properties/C20.v (C20_sma_u16, ...; width-generic theorems of C02/C04)")
     # every length used above lies in 2..65534: with a 16-bit PeriodType the constructor must accept it
@@ -132,6 +134,71 @@ def run(ctx):
             ctx.fail_input(dict(c.meta(), features=["period_type_u16"]),
                            "the period_type_u16 build rejects the length %s of %s (outcome %s), which fits a 16-bit PeriodType" % (
                                c.meta().get("length"), c.meta().get("entry"), io[0]), io)
+    # ---------------- (b') indicators with parameters beyond 255 on the u16 build against the Gallina model at width 16
+    WIDE = {
+        "Aroon": [("period", "300"), ("over_zone_period", "400")],
+        "AverageDirectionalIndex": [("method1", "rma-300"), ("method2", "rma-300"), ("period1", "260")],
+        "AwesomeOscillator": [("ma1", "sma-300"), ("ma2", "sma-260"), ("left", "200"), ("right", "100")],
+        "BollingerBands": [("avg_size", "300")],
+        "ChaikinMoneyFlow": [("size", "300")],
+        "ChaikinOscillator": [("ma1", "ema-260"), ("ma2", "ema-300"), ("window", "280")],
+        "ChandeKrollStop": [("ma", "sma-300"), ("q", "260")],
+        "ChandeMomentumOscillator": [("period", "300")],
+        "CommodityChannelIndex": [("period", "300")],
+        "CoppockCurve": [("ma1", "wma-300"), ("s3_ma", "ema-260"), ("period2", "320"), ("period3", "280"), ("s2_left", "200"), ("s2_right", "100")],
+        "DetrendedPriceOscillator": [("ma", "sma-300")],
+        "DonchianChannel": [("period", "300")],
+        "EaseOfMovement": [("ma", "sma-300"), ("period2", "260")],
+        "EldersForceIndex": [("ma", "ema-300"), ("period2", "260")],
+        "Envelopes": [("ma", "sma-300")],
+        "HullMovingAverage": [("period", "300"), ("left", "150"), ("right", "120")],
+        "IchimokuCloud": [("l1", "260"), ("l2", "300"), ("l3", "400"), ("m", "280")],
+        "Kaufman": [("period1", "300"), ("period2", "260"), ("period3", "400"), ("filter_period", "280")],
+        "KeltnerChannel": [("ma", "ema-300")],
+        "KlingerVolumeOscillator": [("ma1", "ema-260"), ("ma2", "ema-300"), ("signal", "ema-280")],
+        "KnowSureThing": [("period1", "260"), ("period2", "280"), ("period3", "300"), ("period4", "320"), ("ma1", "sma-260"),
+                          ("ma2", "sma-270"), ("ma3", "sma-280"), ("ma4", "sma-290"), ("signal", "sma-300")],
+        "MACD": [("ma1", "ema-260"), ("ma2", "ema-300"), ("signal", "ema-280")],
+        "MomentumIndex": [("period1", "300"), ("period2", "260")],
+        "MoneyFlowIndex": [("period", "300")],
+        "PivotReversalStrategy": [("left", "200"), ("right", "100")],
+        "PriceChannelStrategy": [("period", "300")],
+        "RelativeStrengthIndex": [("ma", "ema-300")],
+        "RelativeVigorIndex": [("period1", "300"), ("period2", "260"), ("signal", "sma-280")],
+        "SMIErgodicIndicator": [("period1", "300"), ("period2", "260"), ("signal", "ema-280")],
+        "StochasticOscillator": [("period", "300"), ("ma", "sma-260"), ("signal", "sma-280")],
+        "TrendStrengthIndex": [("period", "300"), ("reverse_offset", "260")],
+        "Trix": [("period1", "300"), ("signal", "sma-260")],
+        "TrueStrengthIndex": [("period1", "300"), ("period2", "260"), ("period3", "280")],
+        "WoodiesCCI": [("period1", "260"), ("period2", "300"), ("s1_lag", "280")],
+    }
+    from ..suites import indmodels as im
+    icases16 = []
+    tabd = {t["config"]: t for t in tabs}
+    r = rng.fork("wide-ind")
+    for name, sets in WIDE.items():
+        if name not in im.MODELS or name not in tabd:
+            continue
+        try:
+            im.eff_config(tabd[name], sets)
+        except Exception:
+            continue
+        cs, regime = ind.candles_for(r, (420 if ctx.tier == "quick" else 900), regime=r.choice(["walk", "monotone", "plateau"]))
+        icases16.append(im.IMCase(tabd[name], sets, cs[0], cs[1:], kind="wide-parameters", meta={"regime": regime}))
+        # one-sided legs longer than 255 bars: trend lengths and counters beyond the 8-bit range
+        tc = gens.trend_candles(r, [(380, 0.002), (300, -0.002)] if ctx.tier == "quick" else [(700, 0.001), (600, -0.001), (300, 0.002)])
+        icases16.append(im.IMCase(tabd[name], sets, tc[0], tc[1:], kind="wide-parameters-trend", meta={"regime": "monotone-legs"}))
+    for c in icases16:
+        c.exact = True   # the width-generic model is the specification here: a difference is a failing input of the wide build
+    iimpl, imod = ctx.run_suite("wide-indicator-parameters-u16", icases16, im.HEADER.replace("Local Existing Instance PW8.", "Local Existing Instance PW16."),
+                             features=("period_type_u16",), per_shard=2, theorem="width-generic indicator models (Indicators/*.v at PW16)")
+    for c, io, mo in zip(icases16, iimpl, imod):
+        if io and mo and mo[0] == 0:      # the width-16 model accepts the configuration
+            p = ind.parse(io, len(c.sets))
+            if p.init not in (0, None) and p.init != core.T_PANIC and not p.panic_in_set:
+                ctx.fail_input(dict(c.meta(), features=["period_type_u16"]),
+                               "the period_type_u16 build rejects the configuration %s of %s (init outcome %s): every parameter fits a 16-bit PeriodType" % (
+                                   c.sets, c.name, p.init), io)
     # ---------------- (c) single precision
     fcases = []
     r = rng.fork("f32")
